@@ -552,7 +552,7 @@ func (concEngine) Run(ops []string) (ans []string, oracle []string) {
 				return "bad-op"
 			}
 			switch f[0] {
-			case "opt", "prog", "use", "group", "route", "notfound", "notallowed", "req":
+			case "opt", "prog", "use", "group", "route", "notfound", "notallowed", "req", "tblend":
 				return "ok"
 			case "caps":
 				if len(f) != 3 {
@@ -562,17 +562,18 @@ func (concEngine) Run(ops []string) (ans []string, oracle []string) {
 				got := []string{}
 				for _, cr := range cfg.routes {
 					if route := r.routes[cr.id]; route != nil {
-						got = append(got, strconv.Itoa(cap(route.Handlers())))
+						got = append(got, fmt.Sprintf("%d:%d", len(route.Handlers()), cap(route.Handlers())))
 					}
 				}
 				gs := strings.Join(got, ",")
 				if gs == "" {
 					gs = "-"
 				}
-				if strconv.Itoa(cap(r.r.Handlers())) == f[1] && gs == f[2] {
+				gg := fmt.Sprintf("%d:%d", len(r.r.Handlers()), cap(r.r.Handlers()))
+				if gg == f[1] && gs == f[2] {
 					return "ok ;; caps-agree"
 				}
-				return fmt.Sprintf("ok ;; caps-differ(%d %s)", cap(r.r.Handlers()), gs)
+				return fmt.Sprintf("ok ;; caps-differ(%s %s)", gg, gs)
 			case "tbl":
 				if len(f) < 4 {
 					return "bad-op"
